@@ -6,7 +6,7 @@ import ast
 import re
 
 from engine.callgraph import Resolver
-from engine.cfg import CFG, normalise_compare, atoms, int_bound_gt, int_bound_lt
+from engine.cfg import CFG, normalise_compare, atoms, int_bound_gt, int_bound_lt, A
 from engine.escape import Escape
 from engine.guards import make_guard
 from engine.model import src, stmt_key, dotted, AnalysisError, walk_no_nested
@@ -306,27 +306,32 @@ def check_validators(model, rep, rule):
                 for a in atoms(nc):
                     ats.append((a, nc[0], t))
             # every ordering comparison in a raising guard must be about the returned value
+            def _inner(x):
+                return x[4:-1] if x.startswith("len(") and x.endswith(")") else x
             for (a, _, t) in ats:
-                if a[1] in ("<", "<=", ">", ">=") or (a[1] == "==" and a[0].startswith("len(")):
-                    who = a[0] if not a[0].lstrip("-").isdigit() else a[2]
-                    inner = who[4:-1] if who.startswith("len(") and who.endswith(")") else who
-                    if inner.isidentifier() and inner != v and inner not in (str(lo), str(hi)):
-                        rep.bad(rule, f.qualname, where(f, t.ast), f"`{src(t.ast.test)}` bounds `{inner}`, but the validator returns `{v}`: the returned value can lie outside the bound "
-                                "(e.g. text measured in characters, stored in octets) and the encoder's width assumption / `assert l < 256` fails later", stmt="validator-subject")
+                if a[1] in ("<", "<=", ">", ">=") or (a[1] == "==" and (a[0].startswith("len(") or a[2].startswith("len("))):
+                    for who in (a[0], a[2]):
+                        inner = _inner(who)
+                        if inner.isidentifier() and inner != v and inner not in (str(lo), str(hi)):
+                            rep.bad(rule, f.qualname, where(f, t.ast), f"`{src(t.ast.test)}` bounds `{inner}`, but the validator returns `{v}`: the returned value can lie outside the bound "
+                                    "(e.g. text measured in characters, stored in octets) and the encoder's width assumption / `assert l < 256` fails later", stmt="validator-subject")
 
             def has(op_set, rhs, strict_plus):
+                """a dominating raising guard `subj OP rhs` (OP in op_set), in whichever orientation the atom is written"""
                 for (a, kind, _) in ats:
                     if kind not in ("atom", "or", "and"):
                         continue
-                    if a[0] == subj and a[1] in op_set:
-                        if isinstance(rhs, int):
+                    if isinstance(rhs, int):
+                        if a[0] == subj and a[1] in op_set:
                             try:
                                 c = int(ast.literal_eval(a[2]))
                             except Exception:
                                 continue
                             if c == rhs + (strict_plus if a[1] in (">=", "<=") else 0):
                                 return True
-                        elif a[2] == rhs and a[1] in (">", "<"):
+                    else:
+                        strict = ">" if ">" in op_set else "<"
+                        if a == A(subj, strict, rhs):
                             return True
                 return False
             if hi is not None:
